@@ -204,7 +204,20 @@ func report(kind, input string, width int, lines [][]gr, why string) {
 	r.Violation(sigOf(kind, why), len(input)*16+width, detail{Input: input, Width: width, Kind: kind, Lines: lineStrings(lines), Why: why})
 }
 
+// a panic inside a scanner or a widget is a violation like any other, not the end of the worker
 func plainCase(s string, width int) {
+	if p, site, msg := explore.Guard(func() { plainCase1(s, width) }); p {
+		report("plain", s, width, nil, "panic|"+site+": "+msg)
+	}
+}
+
+func richCase(s string, width int, pattern uint) {
+	if p, site, msg := explore.Guard(func() { richCase1(s, width, pattern) }); p {
+		report("rich", s, width, nil, "panic|"+site+": "+msg)
+	}
+}
+
+func plainCase1(s string, width int) {
 	in := graphemes(s)
 	sc := text.NewSoftwrapScanner(s, uint16(width))
 	c := ctx(uint16(width), 65535)
@@ -296,7 +309,7 @@ func graphemesExpanded(s string) []gr {
 	return out
 }
 
-func richCase(s string, width int, pattern uint) {
+func richCase1(s string, width int, pattern uint) {
 	in := graphemesExpanded(s)
 	cells := make([]vaxis.Cell, len(in))
 	for i := range in {
